@@ -18,7 +18,7 @@ from ..worlds import relay, store
 ID = "C05"
 LEVEL = "exploration"
 CHUNK = 40
-BUDGET = {"quick": {"runs": 2500, "wall": 150}, "thorough": {"runs": 100000, "wall": 3000}}
+BUDGET = {"quick": {"runs": 2500, "wall": 150}, "thorough": {"runs": 100000, "wall": 1200}}
 RULE = ("2-5 connections x scripts of 2-12 frames over REQ (1-3 well-formed filters aimed at the event "
         "pool, fresh and reused ids), CLOSE, EVENT (distinct pool events incl. replaceable, ephemeral, "
         "deletions), barrier, disconnect; slow consumers; both back ends; every interleaving decision "
